@@ -342,7 +342,8 @@ def check_selection(ck, tier, found):
             k = it.call('@h_select', [buf, ty, n0, n1, sel])
             return k, [it.load(Ptr(sel.obj, 8 * i), 8) for i in range(2)], list(calls)
         if not names: ck.inconc('bead selection: the forwarding hook of the glob matcher was not found in the module'); return
-        res, st = explore(mod, M, body, parsed=parsed, max_paths=2000, timeout=600); ck.stubs |= st['models_used'] | {'tools::wildcmp(string,string) -> contract stub (decided bit-precisely in the E1 part of C18)'}
+        res, st = explore(mod, M, body, parsed=parsed, max_paths=600, timeout=240, partial=True); ck.stubs |= st['models_used'] | {'tools::wildcmp(string,string) -> contract stub (decided bit-precisely in the E1 part of C18)'}
+        truncated = st.get('truncated')
         ck.add_witness('bead selection (%s): %d paths' % ('name: prefix' if prefix else 'type selection', len(res)), len(res) >= 1)
         q = []
         for it, (k, sel, cl) in res:
@@ -357,22 +358,32 @@ def check_selection(ck, tier, found):
                 goal.append(s_i == z3.If(r, 1, 0))
             q.append((pc, [z3.Not(z3.And(goal))]))
         name = 'BeadList::Generate with a %d-character selection %s: the glob matcher is asked exactly (%s, bead %s) for every bead and exactly the accepted beads are listed, once' % (L, '"name:" + %d arbitrary printable characters' % nsym if prefix else 'of arbitrary printable characters not starting with "name:"', 'the text after the prefix' if prefix else 'the whole selection', 'name' if prefix else 'type')
-        s_, mdl = smt.agg_core(ck, name, q, 60)
+        s_, mdl = smt.agg_core(ck, name, q[:120] if truncated else q, 60)
+        if truncated and s_ != 'sat': ck.inconc('bead selection (%s): exploration truncated (%s) and no failure on the explored paths' % ('name: prefix' if prefix else 'type selection', truncated))
         if s_ == 'sat': found.append(('selection', name, {'task': {'label': 'bead selection', 'kind': 'select', 'prefix': prefix.decode(), 'n': nsym, 'names': [name0.decode(), name1.decode()]}, 'model': mdl}))
 
 def replay_selection(meta):
     binp = common.native_build([common.harness_path(HARNESS)], 'C03p_native', extra=['-I' + common.REPO], defs=['VERIF_NATIVE'], libs=['-lexpat'])
     t = meta['task']; m = meta.get('model') or {}
-    sel = t['prefix'] + ''.join(chr(int(str(m.get('c%d' % i, 42)))) for i in range(t['n']))
-    rc, so, se = common.run_native(binp, args=['select', sel, '65', '66'] + t['names'])
-    line = [l for l in so.split('\n') if l.startswith('RESULT')]
-    if not line: return True, 'native run gave no result'
-    v = [int(x) for x in line[0].split()[1:]]
-    import fnmatch
+    import re, itertools
     def glob(p, s_):
         # '*' any run, '?' one character, everything else literal (the semantics of tools::wildcmp)
-        import re
         return re.fullmatch(''.join('.*' if c == '*' else ('.' if c == '?' else re.escape(c)) for c in p), s_, re.S) is not None
-    pat = sel[5:] if sel.startswith('name:') else sel; targets = t['names'] if sel.startswith('name:') else ['A', 'B']
-    exp = [1 if glob(pat, x) else 0 for x in targets]
-    return v[1:3] != exp, 'native BeadList::Generate(%r) on beads named %s / typed A,B selects %s, glob semantics give %s' % (sel, t['names'], v[1:3], exp)
+    def run(sel):
+        rc, so, se = common.run_native(binp, args=['select', sel, '65', '66'] + t['names'])
+        line = [l for l in so.split('\n') if l.startswith('RESULT')]
+        if not line: return None, None
+        v = [int(x) for x in line[0].split()[1:]]
+        pat = sel[5:] if sel.startswith('name:') else sel; targets = t['names'] if sel.startswith('name:') else ['A', 'B']
+        return v[1:3], [1 if glob(pat, x) else 0 for x in targets]
+    first = t['prefix'] + ''.join(chr(int(str(m.get('c%d' % i, 42)))) for i in range(t['n']))
+    # the solver's model shows that the matcher is asked something else; the selections built from it and from a small probe
+    # alphabet are run natively until one shows the difference in the beads selected
+    cands = [first] + [t['prefix'] + ''.join(c) for c in itertools.product('*?:1CRAB', repeat=min(t['n'], 3))] if t['n'] <= 3 else [first] + [''.join(c) + 'x' * (t['n'] - 3) for c in itertools.product('*?:AB', repeat=3)]
+    last = None
+    for sel in cands[:600]:
+        got, exp = run(sel)
+        if got is None: return True, 'native run gave no result for %r' % sel
+        last = (sel, got, exp)
+        if got != exp: return True, 'native BeadList::Generate(%r) on beads named %s / typed A,B selects %s, glob semantics give %s' % (sel, t['names'], got, exp)
+    return False, 'native BeadList::Generate agrees with glob semantics on %d probe selections (last %r)' % (len(cands[:600]), last)
